@@ -105,6 +105,13 @@ theorem C13_gen_classes :
         ticks && runOk && (!isApp || disc == name)) = true ∧
     Gen.Software.lifecycleOverrides = [] := by decide
 
+/-- **Every `apply_timestep` override below `Software` — of every Service / Application subclass and of the abstract bases in
+between — calls `super().apply_timestep(…)` on every path through its body** (no `return` / `raise` in front of it, not only in
+one branch, not inside a loop or a `try`): the restart, install and fix countdowns of `Svc.tick` / `App.tick` / `Soft.tick` run
+for every class in every state, which is what lets the timing theorems speak about every shipped class.  (The `ticks` column of
+`C13_gen_classes` is computed with the same path analysis along each class's own chain.) -/
+theorem C13_gen_tick_overrides : Gen.Software.tickOverridesSkippingSuper = [] := by decide
+
 /-- **every shipped class's `receive` begins with the running-guard** (`_can_perform_action` / a `super().receive` chain
 that ends in it) — which is why `Node.handles` has no per-class flag (finding F-23, repaired).  A class that loses its
 guard, or a new class without one, breaks this obligation. -/
